@@ -56,6 +56,16 @@ def classify(case, r):
     compile-error | skipped"""
     impl = r.get('impl', '')
     model = r.get('model')
+    if case.get('kind') in ('ext', 'reghistory'):
+        if impl.startswith('P ') or impl == 'H':
+            return ('impl-panic' if impl.startswith('P ') else 'impl-hang'), impl
+        if not model:
+            return 'skipped', 'no model outcome'
+        if model.startswith('X ') or impl.startswith('X '):
+            return 'inconclusive', (model if model.startswith('X ') else impl)[:80]
+        if project(impl) == project(model):
+            return 'agree', ''
+        return 'disagree', 'impl=%s model=%s' % (impl[:300], model[:300])
     if case.get('kind') == 'parse':
         if impl.startswith('P '):
             return 'impl-panic', impl
